@@ -667,11 +667,21 @@ impl Model {
     }
 
     fn feed_str(&mut self, s: &str, utf8: bool) {
-        let (ev, _ground, d8) = recog::recognise(s, utf8);
+        let (ev, d8, d10) = recog::recognise_d10(s, utf8);
         if d8 {
             self.dc.mark_all("D8 unusual OSC shape");
         }
-        for e in &ev {
+        for (i, e) in ev.iter().enumerate() {
+            if d10.contains(&i) {
+                // D10: whether the CAN / SUB that aborts a CSI is handed to draw() is not specified.
+                // It only shows if the table active right now maps it to a printable glyph
+                // (CP437 / VAX42 turn 0x18 and 0x1a into arrows).
+                if let Op::Draw(t) = e {
+                    if t.chars().any(|c| self.translate(c).width().unwrap_or(0) > 0) {
+                        self.dc.mark_all("D10 CAN/SUB abort under a charset that prints it");
+                    }
+                }
+            }
             self.apply(e);
         }
     }
